@@ -17,6 +17,8 @@ one kind of rewrite at a time, edits that cannot change behaviour:
 * ``hoist-return``    ``return e`` -> ``result_ = e; return result_``
 * ``hoist-args``      non-trivial call arguments of statement-level calls are
                       bound to temporaries first
+* ``extract-helper``  a run of top-level statements is moved into a new helper
+                      function that is called in its place
 * ``guard-clause``    a trailing ``if c: BODY`` of a loop body / function becomes
                       ``if not c: continue`` (``return``) followed by BODY
 * ``unguard``         the inverse for ``if c: continue`` guard clauses
@@ -405,6 +407,88 @@ def rename_function_everywhere(tree_by_mod: dict[str, ast.Module],
     return True
 
 
+def t_extract_helper(f: ast.FunctionDef, tree: ast.Module) -> bool:
+    """Extract method: the first run of >= 2 consecutive top-level statements
+    without control transfer becomes a module-level helper; the run is
+    replaced by ``outs = helper(ins)``."""
+    body = f.body
+    k0 = _docstring_offset(body)
+    bad = (ast.Return, ast.Yield, ast.YieldFrom, ast.Break, ast.Continue,
+           ast.Raise, ast.Global, ast.Nonlocal, ast.FunctionDef, ast.ClassDef,
+           ast.Await, ast.Lambda, ast.Try)
+
+    def movable(st: ast.stmt) -> bool:
+        return isinstance(st, (ast.Assign, ast.AnnAssign, ast.AugAssign,
+                               ast.Expr, ast.For, ast.If, ast.With)) and \
+            not any(isinstance(n, bad) for n in ast.walk(st))
+    i = k0
+    run: Optional[tuple[int, int]] = None
+    while i < len(body):
+        if movable(body[i]):
+            j = i
+            while j < len(body) and movable(body[j]):
+                j += 1
+            if j - i >= 2:
+                run = (i, j)
+                break
+            i = j
+        else:
+            i += 1
+    if run is None:
+        return False
+    i, j = run
+    block = body[i:j]
+    params = [a.arg for a in _params(f)]
+    before = set(params) | {n.id for st in body[:i] for n in ast.walk(st)
+                            if isinstance(n, ast.Name)
+                            and isinstance(n.ctx, ast.Store)}
+    loads = [n.id for st in block for n in ast.walk(st)
+             if isinstance(n, ast.Name) and isinstance(n.ctx, ast.Load)]
+    stores = {n.id for st in block for n in ast.walk(st)
+              if isinstance(n, ast.Name) and isinstance(n.ctx, (ast.Store,
+                                                                ast.Del))}
+    after_loads = {n.id for st in body[j:] for n in ast.walk(st)
+                   if isinstance(n, ast.Name) and isinstance(n.ctx, ast.Load)}
+    ins = [v for v in dict.fromkeys(loads) if v in before]
+    # an augmented assignment reads its target
+    for st in block:
+        for n in ast.walk(st):
+            if isinstance(n, ast.AugAssign) and isinstance(n.target, ast.Name) \
+                    and n.target.id in before and n.target.id not in ins:
+                ins.append(n.target.id)
+    outs = sorted(stores & after_loads)
+    hname = f"_extracted_{f.name.strip('_')}"
+    ret: list[ast.stmt] = []
+    if outs:
+        ret = [ast.Return(value=ast.Tuple(
+            elts=[ast.Name(id=o, ctx=ast.Load()) for o in outs],
+            ctx=ast.Load()) if len(outs) > 1 else
+            ast.Name(id=outs[0], ctx=ast.Load()))]
+    helper = ast.FunctionDef(
+        name=hname,
+        args=ast.arguments(posonlyargs=[], args=[ast.arg(arg=v) for v in ins],
+                           kwonlyargs=[], kw_defaults=[], defaults=[]),
+        body=block + ret, decorator_list=[], returns=None, type_comment=None,
+        type_params=[])
+    call = ast.Call(func=ast.Name(id=hname, ctx=ast.Load()),
+                    args=[ast.Name(id=v, ctx=ast.Load()) for v in ins],
+                    keywords=[])
+    if outs:
+        tgt: ast.expr = ast.Tuple(elts=[ast.Name(id=o, ctx=ast.Store())
+                                        for o in outs], ctx=ast.Store()) \
+            if len(outs) > 1 else ast.Name(id=outs[0], ctx=ast.Store())
+        repl: ast.stmt = ast.Assign(targets=[tgt], value=call)
+    else:
+        repl = ast.Expr(value=call)
+    body[i:j] = [repl]
+    # place the helper at module level, before the (class of the) function
+    for k, st in enumerate(tree.body):
+        if st is f or (isinstance(st, ast.ClassDef) and f in st.body):
+            tree.body.insert(k, helper)
+            return True
+    return False
+
+
 TRANSFORMS: dict[str, Callable[[ast.FunctionDef, ast.Module], bool]] = {
     "rename-locals": t_rename_locals,
     "flip-if": t_flip_if,
@@ -414,6 +498,7 @@ TRANSFORMS: dict[str, Callable[[ast.FunctionDef, ast.Module], bool]] = {
     "log-ends": t_log_ends,
     "hoist-return": t_hoist_return,
     "hoist-args": t_hoist_args,
+    "extract-helper": t_extract_helper,
     "guard-clause": t_guard_clause,
     "unguard": t_unguard,
 }
